@@ -125,13 +125,11 @@ def refusal_class(stderr: str) -> Tuple[str, str]:
     accepted could not be translated (the generator's own re-parse or ``greenery``).
     """
     lines = [ln.strip() for ln in stderr.splitlines() if ln.strip()]
-    blob = " ".join(lines)
-    if "to xs:simpleType" in blob or "greenery failed" in blob:
-        tail = blob.split("to xs:simpleType:", 1)[-1]
-        kind = "pattern-translation"
-        if "greenery failed" in blob:
-            return kind, "greenery-failed-to-parse"
-        return kind, rg.norm_text(tail, 8)
+    for ln in lines:
+        if "greenery failed to parse" in ln:
+            return "pattern-translation", "greenery-failed-to-parse"
+        if "to xs:simpleType:" in ln:
+            return "pattern-translation", rg.norm_text(ln.split("to xs:simpleType:", 1)[1], 8)
     msg = lines[-1] if lines else ""
     for ln in lines:
         if ln.startswith("At line") or ln.startswith("*"):
@@ -550,12 +548,17 @@ class Expectations:
         self.pm = pm
         self.cprim_cache: Dict[str, List[Bound]] = {}
         self.by_prop: Dict[Tuple[str, str], PropExpect] = {}
+        #: class -> property (own *or inherited*) -> bounds its own invariants state;
+        #: only the instance generator uses the inherited part (descendants' tightenings)
+        self.class_bounds: Dict[str, Dict[str, List[Bound]]] = {}
         for cname in pm.order:
             if not pm.is_class(cname):
                 continue
             cls = pm.classes[cname]
             own_names = {p.name for p in cls.own_props}
             per_prop: Dict[str, List[Bound]] = {}
+            every: Dict[str, List[Bound]] = {}
+            self.class_bounds[cname] = every
             cross: set = set()
             for inv in cls.own_invariants:
                 guard, core = _strip_guard(inv.node.body)
@@ -571,6 +574,8 @@ class Expectations:
                             cross.add(inner[0])
                     continue
                 target, bounds = got
+                if target:
+                    every.setdefault(target, []).extend(bounds)
                 if target and target in own_names:
                     per_prop.setdefault(target, []).extend(bounds)
             for prop in cls.own_props:
@@ -932,3 +937,387 @@ def shrink_disagreement(pattern: str, direction: str, rng: Any, seconds: float =
         return None
     minimal = rg.shrink_pattern(body, fails, seconds=seconds)
     return "^" + minimal + "$"
+
+
+# ---------------------------------------------------------------------------
+# workload: meta-models whose schema-relevant invariants are jointly satisfiable
+# ---------------------------------------------------------------------------
+Window = Tuple[Optional[int], Optional[int]]
+
+
+def _intersect(a: Window, b: Window) -> Optional[Window]:
+    lo = a[0] if b[0] is None else b[0] if a[0] is None else max(a[0], b[0])
+    hi = a[1] if b[1] is None else b[1] if a[1] is None else min(a[1], b[1])
+    if lo is not None and hi is not None and lo > hi:
+        return None
+    return lo, hi
+
+
+class SchemaGenerator(mmgen.Generator):
+    """
+    ``mmgen.Generator`` with the random invariants replaced by *coherent* ones.
+
+    The structure (class DAG, constrained-primitive chains, property types, constructors,
+    pattern functions) is the shared generator's.  Afterwards every constrained
+    primitive and every property of a lengthable or list type gets a length window that
+    lies inside the windows it inherits (constrained-primitive parents, ancestors of the
+    class, both arms of a diamond), spelt with all comparison operators in both operand
+    orders and with the two guard spellings on optional properties; pattern calls are
+    kept only if Python finds a string inside the window that matches all of them.  So
+    most models are satisfiable, and none hits the known ``min == 0`` / crossing-bounds
+    crashes of ``infer_for_schema`` (those belong to C02 / C15).
+    """
+
+    def __init__(self, rng: Any, profile: Optional[mmgen.Profile] = None) -> None:
+        super().__init__(rng, profile)
+        self.cp_window: Dict[str, Window] = {}
+        self.cp_patterns: Dict[str, List[mmgen.GFunc]] = {}
+        self.prop_window: Dict[Tuple[str, str], Window] = {}
+        self.prop_patterns: Dict[Tuple[str, str], List[mmgen.GFunc]] = {}
+
+    # -- windows ---------------------------------------------------------------
+    def sub_window(self, outer: Window, small: bool = False) -> Window:
+        rng = self.rng
+        olo, ohi = outer
+        base_lo = olo if olo is not None else 0
+        span = rng.choice([0, 1, 2, 3]) if small else rng.choice([0, 1, 2, 4, 7, 12, 19])
+        top = ohi if ohi is not None else base_lo + span + 1
+        lo = rng.randint(base_lo, max(base_lo, min(top, base_lo + (2 if small else 3))))
+        lo = max(lo, 1)
+        if lo > top:
+            lo = top
+        hi = rng.randint(lo, max(lo, min(top, lo + span)))
+        mode = rng.choice(["both", "both", "both", "min", "max", "exact"])
+        if mode == "min":
+            return lo, ohi
+        if mode == "max":
+            return olo, hi
+        if mode == "exact":
+            return lo, lo
+        return lo, hi
+
+    def satisfiable(self, fns: Sequence[mmgen.GFunc], window: Window) -> bool:
+        if not fns:
+            return True
+        sampler = instances.RegexSampler(self.rng, max_repeat=6)
+        lo = window[0] or 0
+        hi = window[1]
+        hits = 0
+        for k in range(80):
+            s = sampler.sample(fns[k % len(fns)].pattern or "")
+            if s is None or not judgeable_string(s):
+                continue
+            if len(s) < lo or (hi is not None and len(s) > hi):
+                continue
+            if all(re.match(f.pattern or "", s) is not None for f in fns):
+                hits += 1
+                if hits >= 2:
+                    return True
+        return False
+
+    def len_invariants(self, e: str, new: Window, old: Window, guard: bool) -> List[str]:
+        """Source of invariants that narrow ``old`` to ``new`` (random spellings)."""
+        rng = self.rng
+        out: List[str] = []
+        lo, hi = new
+        changed_lo = lo is not None and lo != old[0]
+        changed_hi = hi is not None and hi != old[1]
+        if changed_lo and changed_hi and lo == hi and rng.random() < 0.7:
+            out.append(rng.choice([f"len({e}) == {lo}", f"{lo} == len({e})"]))
+            self.m.feature("len-eq")
+        else:
+            if changed_lo:
+                out.append(rng.choice([
+                    f"len({e}) >= {lo}", f"len({e}) > {lo - 1}", f"{lo} <= len({e})", f"{lo - 1} < len({e})",
+                ]))
+            if changed_hi:
+                out.append(rng.choice([
+                    f"len({e}) <= {hi}", f"len({e}) < {hi + 1}", f"{hi} >= len({e})", f"{hi + 1} > len({e})",
+                ]))
+        if guard:
+            wrapped = []
+            for body in out:
+                if rng.random() < 0.5:
+                    wrapped.append(f"not ({e} is not None) or ({body})")
+                    self.m.feature("guard-implication")
+                else:
+                    wrapped.append(f"({e} is None) or ({body})")
+                    self.m.feature("guard-is-none-or")
+            out = wrapped
+        return out
+
+    # -- constrained primitives -----------------------------------------------------
+    def gen_cprims(self) -> None:
+        super().gen_cprims()
+        rng = self.rng
+        pats = [f for f in self.m.funcs if f.kind == "pattern"]
+        for cp in self.m.cprims:
+            cp.invariants = []
+            if cp.prim not in ("str", "bytearray"):
+                continue
+            inherited: Window = self.cp_window.get(cp.base, (None, None))
+            window = inherited
+            if rng.random() < 0.7:
+                window = self.sub_window(inherited)
+                for body in self.len_invariants("self", window, inherited, guard=False):
+                    cp.invariants.append((body, self.description()))
+                    self.m.feature("cprim-length")
+            patterns = list(self.cp_patterns.get(cp.base, []))
+            if cp.prim == "str" and pats and rng.random() < (0.5 if not patterns else 0.12):
+                fn = rng.choice(pats)
+                if fn not in patterns and self.satisfiable(patterns + [fn], window):
+                    patterns.append(fn)
+                    cp.invariants.append((f"{fn.name}(self)", self.description()))
+                    self.m.feature("cprim-pattern" if len(patterns) == 1 else "cprim-second-pattern")
+            self.cp_window[cp.name] = window
+            self.cp_patterns[cp.name] = patterns
+
+    # -- classes ------------------------------------------------------------------------
+    def gen_class_invariants(self) -> None:
+        super().gen_class_invariants()
+        rng = self.rng
+        pats = [f for f in self.m.funcs if f.kind == "pattern"]
+        cprim_by_name = {c.name: c for c in self.m.cprims}
+        for cls in self.m.classes:  # generated parents-first
+            cls.invariants = []
+            for prop in cls.all_props:
+                own = any(p is prop for p in cls.props)
+                t = prop.type
+                optional = t.kind == "optional"
+                inner = t.inner if optional else t
+                e = f"self.{prop.name}"
+                # what is already in force for this property in this class
+                inherited: Optional[Window] = (None, None)
+                inherited_patterns: List[mmgen.GFunc] = []
+                for base in cls.bases:
+                    w = self.prop_window.get((base, prop.name))
+                    if w is not None and inherited is not None:
+                        inherited = _intersect(inherited, w)
+                    for fn in self.prop_patterns.get((base, prop.name), []):
+                        if fn not in inherited_patterns:
+                            inherited_patterns.append(fn)
+                if inherited is None:
+                    # the arms of a diamond contradict each other: leave it alone
+                    self.prop_window[(cls.name, prop.name)] = (None, None)
+                    self.m.feature("diamond-arms-disjoint")
+                    continue
+                window: Window = inherited
+                patterns = list(inherited_patterns)
+                if inner.kind == "list":
+                    if rng.random() < (0.55 if own else 0.2):
+                        window = self.sub_window(inherited, small=True)
+                        for body in self.len_invariants(e, window, inherited, guard=optional):
+                            cls.invariants.append((body, self.description()))
+                            self.m.feature("list-size" if own else "list-size-tightened-by-descendant")
+                else:
+                    prim = None
+                    outer: Window = (None, None)
+                    cp_patterns: List[mmgen.GFunc] = []
+                    if inner.kind == "prim":
+                        prim = inner.name
+                    elif inner.kind == "cprim":
+                        prim = cprim_by_name[inner.name].prim
+                        outer = self.cp_window.get(inner.name, (None, None))
+                        cp_patterns = self.cp_patterns.get(inner.name, [])
+                    if prim not in ("str", "bytearray"):
+                        continue
+                    start = _intersect(inherited, outer)
+                    if start is None:
+                        continue
+                    if rng.random() < (0.6 if own else 0.25):
+                        window = self.sub_window(start)
+                        for body in self.len_invariants(e, window, start, guard=optional):
+                            cls.invariants.append((body, self.description()))
+                            self.m.feature("length-own" if own else "length-tightened-by-descendant")
+                    else:
+                        window = start
+                    if prim == "str" and pats and rng.random() < (0.45 if own else 0.12):
+                        fn = rng.choice(pats)
+                        already = patterns + [f for f in cp_patterns if f not in patterns]
+                        if fn not in already and (not already or rng.random() < 0.25) and self.satisfiable(already + [fn], window):
+                            patterns.append(fn)
+                            body = f"{fn.name}({e})"
+                            if optional:
+                                body = rng.choice([f"not ({e} is not None) or {body}", f"({e} is None) or {body}"])
+                            cls.invariants.append((body, self.description()))
+                            self.m.feature(
+                                ("pattern-own" if own else "pattern-added-by-descendant")
+                                + ("-second" if already else "")
+                            )
+                self.prop_window[(cls.name, prop.name)] = window
+                self.prop_patterns[(cls.name, prop.name)] = patterns
+            rng.shuffle(cls.invariants)
+
+
+def generate_schema_model(rng: Any, profile: mmgen.Profile) -> mmgen.Model:
+    return SchemaGenerator(rng, profile).generate()
+
+
+# ---------------------------------------------------------------------------
+# workload: instances aimed at the recognised constraints (Python stays the arbiter)
+# ---------------------------------------------------------------------------
+_EMPTY = ValueExpect()
+
+
+class DirectedGenerator(instances.SatisfyingGenerator):
+    """
+    ``SatisfyingGenerator`` whose *proposals* aim at the recognised constraints.
+
+    A value is proposed inside the length window / pattern languages that the classes of
+    the instance (ancestors and the class itself) and the constrained primitives state in
+    recognised forms; whether an instance satisfies *all* invariants is still decided by
+    evaluating the meta-model's lambdas (and re-checked by the caller), so the direction
+    only changes the yield.
+    """
+
+    def __init__(self, pm: pyexec.PyModel, rng: Any, exp: "Expectations", **kwargs: Any) -> None:
+        super().__init__(pm, rng, **kwargs)
+        self.exp = exp
+        self._combined: Dict[Tuple[str, str], Tuple[ValueExpect, ValueExpect]] = {}
+        self.big_sampler = instances.RegexSampler(rng, max_repeat=7)
+
+    def combined(self, cls: str, decl: str, prop: str) -> Tuple[ValueExpect, ValueExpect]:
+        key = (cls, prop)
+        if key not in self._combined:
+            value, item = ValueExpect(), ValueExpect()
+            pe = self.exp.by_prop.get((decl, prop))
+            if pe is not None:
+                value.add(pe.value.bounds)
+                item.add(pe.item.bounds)
+                for other in self.pm.ancestors(cls) + [cls]:
+                    if other == decl:
+                        continue
+                    extra = self.exp.class_bounds.get(other, {}).get(prop, [])
+                    if pe.kind == "list" or pe.item_kind != "str":
+                        extra = [b for b in extra if b.kind != "pattern"]
+                    value.add(extra)
+            self._combined[key] = (value, item)
+        return self._combined[key]
+
+    def text_for(self, prim: str, ve: ValueExpect) -> Any:
+        rng = self.rng
+        lo = max(ve.min or 0, 0)
+        hi = ve.max
+        if hi is not None and lo > hi:
+            raise instances.Unsatisfied("empty window")
+        if prim == "bytearray":
+            n = rng.randint(lo, hi if hi is not None else lo + rng.choice([0, 1, 3, 8]))
+            return bytes(rng.randrange(256) for _ in range(n))
+        patterns = [b.value[1] for b in ve.patterns]
+        if patterns:
+            for k in range(60):
+                sampler = self.big_sampler if k % 2 else self.sampler
+                s = sampler.sample(patterns[k % len(patterns)])
+                if s is not None and judgeable_string(s) and ve.admits(s):
+                    return s
+            raise instances.Unsatisfied("pattern and window")
+        for _ in range(20):
+            s = self.gen_str()
+            if ve.admits(s):
+                return s
+        top = hi if hi is not None else lo + rng.choice([0, 1, 2, 5, 9])
+        n = rng.randint(lo, top)
+        alphabet = rng.choice(["abc", "xyzXYZ", "0123456789", "a b", "abcxyz019_-", "é\U0001F600z"])
+        return "".join(rng.choice(alphabet) for _ in range(n))
+
+    def directed_value(self, t: pyexec.TypeRef, depth: int, ve: ValueExpect, ie: ValueExpect) -> Any:
+        rng = self.rng
+        pm = self.pm
+        if t.kind == "optional":
+            if rng.random() < 0.3 or not self._can_build(t.inner, depth):
+                return None
+            return self.directed_value(t.inner, depth, ve, ie)
+        if t.kind == "list":
+            lo = max(ve.min or 0, 0)
+            hi = ve.max
+            if hi is not None and lo > hi:
+                raise instances.Unsatisfied("empty list window")
+            if not self._can_build(t.inner, depth):
+                if lo > 0:
+                    raise instances.Unsatisfied("list needs items that cannot be built")
+                return []
+            cap = 5 if depth < self.max_depth else 2
+            top = hi if hi is not None else lo + rng.choice([0, 1, 2, 3])
+            n = rng.randint(lo, max(lo, min(top, max(cap, lo))))
+            return [self.directed_value(t.inner, depth, ie, _EMPTY) for _ in range(n)]
+        if t.kind == "atomic":
+            prim = lengthable(pm, t.name)
+            if prim is not None:
+                if t.name in pyexec.PRIMITIVES:
+                    return self.text_for(prim, ve) if not ve.empty else self.gen_prim(prim)
+                invs = pm.all_invariants(t.name)
+                for _ in range(self.tries_value):
+                    value = self.text_for(prim, ve) if not ve.empty else self.gen_prim(prim)
+                    if self._holds(invs, value):
+                        return value
+                    self.stats["retries"] += 1
+                raise instances.Unsatisfied(f"constrained primitive {t.name}")
+        return super().gen_value(t, depth)
+
+    def gen_value(self, t: pyexec.TypeRef, depth: int) -> Any:
+        # values outside a property context (never reached for properties of classes)
+        return super().gen_value(t, depth)
+
+    def gen_instance(self, cls: str, depth: int = 0) -> instances.Inst:
+        pm = self.pm
+        invs = pm.all_invariants(cls)
+        if depth == 0:
+            self._work = 0
+        tries = (self.tries_instance if depth == 0 else 6) if invs else 2
+        last: Optional[Exception] = None
+        for _ in range(tries):
+            self._work += 1
+            if self._work > self.work_budget:
+                self.stats["unsatisfied"] += 1
+                raise instances.Unsatisfied(f"work budget exhausted at class {cls}")
+            try:
+                props: Dict[str, Any] = {}
+                for decl, prop in pm.all_props(cls):
+                    ve, ie = self.combined(cls, decl, prop.name)
+                    props[prop.name] = self.directed_value(prop.type, depth, ve, ie)
+                inst = instances.Inst(cls, props)
+            except instances.Unsatisfied as err:
+                last = err
+                self.stats["retries"] += 1
+                continue
+            if not invs or self._holds(invs, instances.to_shadow(pm, inst)):
+                self.stats["instances"] += 1
+                return inst
+            self.stats["retries"] += 1
+        self.stats["unsatisfied"] += 1
+        raise instances.Unsatisfied(f"class {cls}: {last}")
+
+
+# ---------------------------------------------------------------------------
+# process set-up shared by the two checks
+# ---------------------------------------------------------------------------
+def warm_up() -> None:
+    """
+    Import everything the workers need *before* they are forked (importing the
+    icontract-decorated generator costs seconds per process) and push one tiny model
+    through the whole pipeline so that lazily imported modules are loaded as well.
+    """
+    import gc
+
+    import greenery  # noqa: F401
+    import xmlschema  # noqa: F401
+
+    from vf import pysdk
+
+    text = pattern_model("^[a-z]+$")
+    run = run_xsd(text, seconds=120.0)
+    try:
+        if run.xsd is not None:
+            validators = Validators(run.xsd)
+            lab = PatternLab()
+            validators.valid_in(lab.document("abc"))
+        try:
+            sdk = pysdk.Sdk(text, pyexec.PyModel(text))
+            sdk.xmlization.to_str(sdk.build(instances.Inst("Something", {"some_text": "abc"})))
+            sdk.close()
+        except Exception:  # noqa: the checks themselves report what matters
+            pass
+    finally:
+        run.cleanup()
+    gc.collect()
+    gc.freeze()
